@@ -50,6 +50,9 @@ func main() {
 	}
 	w.Extra["unit_s"] = t1.Sub(t0).Seconds()
 	w.Extra["e2e_s"] = time.Since(t1).Seconds()
+	if *only == "" || *only == "gen" { // gen-* classes: validation of the translated definitions (gen.go)
+		runGen(w, r.Fork(), *tier == "thorough")
+	}
 	if err := w.Close(); err != nil {
 		fmt.Fprintln(os.Stderr, err)
 		os.Exit(2)
